@@ -214,8 +214,56 @@ class Group:
 
 
 class File(Group):
+    """a file is usable until it is closed (explicitly or by leaving a `with` block), like h5py's"""
+
     def __init__(self, *a, **k):
+        self._closed = False
         Group.__init__(self, '/')
+
+    def _alive(self):
+        if self._closed:
+            raise KeyError("Unable to synchronously open object (invalid identifier type to function): the file is closed")
+
+    @property
+    def attrs(self):
+        self._alive()
+        return self._attrs
+
+    @attrs.setter
+    def attrs(self, v):
+        self._attrs = v
+
+    def __getitem__(self, path):
+        self._alive()
+        return Group.__getitem__(self, path)
+
+    def create_group(self, name):
+        if self._closed:
+            raise ValueError("Unable to synchronously create group (invalid identifier type to function)")
+        return Group.create_group(self, name)
+
+    def create_dataset(self, name, *a, **k):
+        if self._closed:
+            raise ValueError("Unable to synchronously create dataset (invalid identifier type to function)")
+        return Group.create_dataset(self, name, *a, **k)
+
+    def __contains__(self, path):
+        return (not self._closed) and Group.__contains__(self, path)
+
+    def keys(self):
+        if self._closed:
+            raise ValueError("Invalid group (or file) id (invalid group (or file) ID)")
+        return Group.keys(self)
+
+    def __bool__(self):
+        return not self._closed
+
+    def close(self):
+        self._closed = True
+
+    def __exit__(self, *a):
+        self.close()
+        return False
 
 
 def is_hdf5(fp):
